@@ -116,6 +116,9 @@ func genRecord(r *rng) *grec {
 		}
 	case "metadata":
 		ct = "application/warc-fields"
+		if r.chance(1, 6) {
+			ct = pick(r, []string{"application/warc-fields ; charset=utf-8", "Application/WARC-Fields", "application/warc-fields;x=y", "application/warc-fields\t"})
+		}
 		g.block = []byte(pick(r, []string{"via: http://example.com/\r\nhopsFromSeed: P\r\n", "a: b\r\n"}))
 		add("WARC-Refers-To", "<urn:uuid:aaaaaaaa-0000-4000-8000-000000000001>")
 		if r.chance(1, 2) {
@@ -135,7 +138,10 @@ func genRecord(r *rng) *grec {
 		}
 		ct = "application/http;msgtype=" + g.rtype
 		if r.chance(1, 5) {
-			ct = pick(r, []string{"application/http; msgtype=" + g.rtype, "Application/HTTP", "application/http"})
+			ct = pick(r, []string{"application/http; msgtype=" + g.rtype, "Application/HTTP", "application/http",
+				// optional white space around the ';' (RFC 7231 3.1.1.1), other letter case, further parameters
+				"application/http ; msgtype=" + g.rtype, "application/http ;msgtype=" + g.rtype, "Application/HTTP\t; msgtype=" + g.rtype,
+				"APPLICATION/HTTP;MSGTYPE=" + strings.ToUpper(g.rtype), "application/http;msgtype=" + g.rtype + ";charset=utf-8", "application/http "})
 		}
 		pl := pick(r, payloadPool)
 		if !strings.HasSuffix(head, "\n\r\n") && !strings.HasSuffix(head, "\n\n") {
